@@ -65,6 +65,16 @@ def exit_variants(base, anchor, xa, pre=()):
     return [v1, v2]
 
 
+def content_message(cell):
+    """the well-framed message a content cell sends: FFI_ERROR text / string FFI_RESULT / READY with a payload"""
+    c = H.CONTENTS[cell['content']]
+    if cell['fault'] == 'errtext':
+        return hdr(1, 0x11, len(c)) + c
+    if cell['fault'] == 'strres':
+        return hdr(1, 0x10, 5 + len(c)) + b'\x05' + struct.pack('<I', len(c)) + c
+    return hdr(1, 0x12, len(c)) + c
+
+
 def cell_variants(cell, ncalls):
     """scripts of incarnation 1 that the fake's behaviour for this cell can amount to, as seen from the VM's system calls"""
     step, k, f = cell['step'], cell['k'], cell['fault']
@@ -91,6 +101,9 @@ def cell_variants(cell, ncalls):
             else:
                 b = dict(base); b['hdr%d' % k] = []
                 out += exit_variants(b, 'hdr%d' % k, xa)
+                # the hang lasts 0.4 s, the program computes ~0.2 s between calls: on a loaded machine the peer may be gone
+                # before call k starts
+                v = dict(base); v['alive%d' % k] = [xa]; out.append(v)
         elif step == 'reply':
             b = dict(base); b['hdr%d' % k] = []
             out += exit_variants(b, 'hdr%d' % k, xa)
@@ -133,7 +146,7 @@ def cell_variants(cell, ncalls):
                 b['hdr%d' % j] = []
         return [b]
     # message faults: one bad message, then the proxy goes on
-    bad = BAD[f](0x12 if step == 'before_ready' else 0x10)
+    bad = content_message(cell) if f in H.CONTENT_FAULTS else BAD[f](0x12 if step == 'before_ready' else 0x10)
     b = dict(base)
     if step == 'before_ready':
         b['ready'] = [d(bad)]
@@ -215,7 +228,7 @@ def finding_key(cell, cls, model_lines):
 def run_matrix(ck, b, ref, K, sig_ignored):
     ncalls = K + 1
     env0 = H.setup(b, ncalls)
-    cs = H.cells(K)
+    cs = H.cells(K) + [c for c in H.content_cells(K) if c['fault'] == 'ready_payload']
     with ThreadPoolExecutor(8) as ex:
         obs = list(ex.map(lambda c: H.run_cell(env0, c, hang_s=1.5), cs))
     with ThreadPoolExecutor(12) as ex:
@@ -226,7 +239,7 @@ def run_matrix(ck, b, ref, K, sig_ignored):
     for c, o, ms in zip(cs, obs, models):
         cls = H.classify(o, ncalls)
         allowed = [m[0] for m in ms]
-        name = '%s/%d/%s' % (c['step'], c['k'], c['fault'])
+        name = H.cell_name(c)
         ck.count(('cell', name), nontrivial=True)
         dist[c['fault']] = dist.get(c['fault'], 0) + 1
         outcomes[cls[0]] = outcomes.get(cls[0], 0) + 1
@@ -248,7 +261,63 @@ def run_matrix(ck, b, ref, K, sig_ignored):
             ck.sample(dict(cell=name, observed=list(cls), model_allows=sorted(set(map(str, allowed)))))
     ck.extra['matrix'] = dict(K=K, cells=len(cs), steps=H.STEPS, faults=H.FAULTS, per_fault=dist, observed_status=outcomes,
                               model_mismatches=mism, property_violations=viol)
+    run_content(ck, env0, ref, K, sig_ignored)
     return env0
+
+
+K_EMPTY = 'c16:errtext:empty-text-uninitialised-buffer'
+
+
+def cstr(b):
+    return b.split(b'\0', 1)[0]
+
+
+def run_content(ck, env0, ref, K, sig_ignored):
+    """CONTENT classes: every message whose text/bytes the peer chooses (FFI_ERROR text, string results) carries printf
+    directives, NUL bytes, non-UTF8, escapes, nothing, newlines, protocol keywords, boundary lengths.  The text is data:
+    stderr must be byte for byte what the model's stderr_report gives for that reply, stdout the program's lines with the
+    string result echoed as a C string; exit status as the model says; nothing left behind."""
+    ncalls = K + 1
+    cs = [c for c in H.content_cells(K) if c['fault'] != 'ready_payload']
+    with ThreadPoolExecutor(8) as ex:
+        obs = list(ex.map(lambda c: H.run_cell(env0, c, hang_s=1.5), cs))
+    with ThreadPoolExecutor(12) as ex:
+        models = list(ex.map(lambda c: model_outcomes(ref, c, ncalls, sig_ignored), cs))
+    bad = 0
+    per = {}
+    for c, o, ms in zip(cs, obs, models):
+        name = H.cell_name(c)
+        content = H.CONTENTS[c['content']]
+        ck.count(('content', name), nontrivial=True)
+        per[c['content']] = per.get(c['content'], 0) + 1
+        m = ms[0][1].split()                       # message cells have one script
+        mstatus, merr, mdone, mreport = m[0], m[1], int(m[2]), m[6]
+        lines = [b'p0']
+        for i in range(1, mdone + 1):
+            lines.append(cstr(content) if (c['fault'] == 'strres' and i == c['k']) else str(i).encode())
+        if mstatus == 'exit0':
+            lines.append(b'end')
+        want_out = b''.join(l + b'\n' for l in lines)
+        want_err = bytes.fromhex(mreport) if mreport != '-' else (b'' if mstatus == 'exit0' else None)
+        status = 'sig%d' % -o['rc'] if o['rc'] < 0 else 'exit%d' % o['rc']
+        replay = dict(case='content', cell=c, ncalls=ncalls, content_hex=content.hex(),
+                      observed=dict(status=status, stdout_hex=o['stdout_b'][-400:].hex(), stderr_hex=o['stderr_b'][-600:].hex(),
+                                    stderr=o['stderr'][-300:], orphans=o['orphans']),
+                      model=' '.join(m[:6]), model_stdout_hex=want_out.hex(), model_stderr_hex=None if want_err is None else want_err.hex(),
+                      engine='nano_vm --isolate-ffi vs fake_cop', correspondence='peer-chosen text is data: model stderr_report vs real stderr')
+        ok = status == mstatus and o['stdout_b'] == want_out and (want_err is None or o['stderr_b'] == want_err) and o['orphans'] == 0
+        if ok:
+            continue
+        bad += 1
+        pre = b'Runtime error: Not implemented\n  FFI call failed: '
+        if (c['fault'] == 'errtext' and content == b'' and status == 'exit1' and o['stdout_b'] == want_out and o['orphans'] == 0
+                and o['stderr_b'].startswith(pre) and o['stderr_b'].endswith(b'\n')):
+            ck.fail(K_EMPTY, 'FFI_ERROR with an empty text: the report shows %r after the prefix (uninitialised ext_err buffer)' % o['stderr_b'][len(pre):-1][:40], replay)
+        else:
+            ck.fail('c16:content:' + name, 'peer-chosen text %s (%r...) is not treated as data: status %s (model %s), stdout %s, stderr %s'
+                    % (c['content'], content[:24], status, mstatus, 'ok' if o['stdout_b'] == want_out else 'differs',
+                       'ok' if (want_err is None or o['stderr_b'] == want_err) else 'differs'), replay)
+    ck.extra['content'] = dict(cells=len(cs), classes=sorted(H.CONTENTS), per_class=per, mismatches=bad)
 
 
 def sigpipe_disposition_dynamic(b, env0):
@@ -350,6 +419,17 @@ def replay(ck, d):
     env0 = H.setup(b, ncalls)
     o = H.run_cell(env0, c, hang_s=1.5)
     cls = H.classify(o, ncalls)
+    if d.get('case') == 'content':
+        ck2 = vlib.Check('C16')
+        env0 = H.setup(b, ncalls)
+        o = H.run_cell(env0, c, hang_s=1.5)
+        ms = model_outcomes(ref, c, ncalls, sig['nano_vm_ignores_sigpipe'])
+        m = ms[0][1].split()
+        status = 'sig%d' % -o['rc'] if o['rc'] < 0 else 'exit%d' % o['rc']
+        print('cell    :', c); print('observed:', status, repr(o['stdout_b'][-120:]), repr(o['stderr_b'][-200:]))
+        print('model   :', m[0], m[1], 'stderr', repr(bytes.fromhex(m[6])) if m[6] != '-' else '-')
+        same = status == m[0] and (m[6] == '-' or o['stderr_b'] == bytes.fromhex(m[6]))
+        print('REPRODUCED' if not same else 'not reproduced'); return 0 if same else 1
     if d.get('unmodelled'):
         print('cell    :', c); print('observed:', cls, 'rc=%s' % o['rc'])
         ok = property_ok(cls, ncalls)
